@@ -265,6 +265,8 @@ impl<'a, W: Write + 'a> ser::Serializer for &'a mut Serializer<W> {
                 }
                 let buf = v.to_be_bytes();
                 self.writer.write_all(&buf)?;
+                // The marker applies to this value only
+                self.non_native_type = None;
             }
             _ => unreachable!(),
         }
@@ -474,6 +476,7 @@ impl<'a, W: Write + 'a> ser::Serializer for &'a mut Serializer<W> {
                     let width = (l as u32).to_be_bytes();
                     self.writer.write_all(&code)?;
                     self.writer.write_all(&width)?;
+                    self.non_native_type = None;
                 }
                 None => {
                     // A string represents a sequence of Unicode characters
@@ -498,6 +501,7 @@ impl<'a, W: Write + 'a> ser::Serializer for &'a mut Serializer<W> {
 
                     let width = (l as u32).to_be_bytes();
                     self.writer.write_all(&width)?;
+                    self.non_native_type = None;
                 }
                 None => {
                     // A string represents a sequence of Unicode characters
@@ -926,7 +930,8 @@ impl<'a, W: Write + 'a> ser::SerializeSeq for SeqSerializer<'a, W> {
             SeqSerializerState::Buffer(buf) => buf,
         };
 
-        match se.seq_type {
+        // The marker applies to this sequence only
+        match se.seq_type.take() {
             None | Some(SequenceType::List) => {
                 write_list(&mut se.writer, num, &buf, &se.is_array_elem)
             }
